@@ -432,7 +432,15 @@ def timedpath(ctx):
             ok = 'link_event.link_idx' in s1 and 'time_pass' in s2 and _same_elem(d.get('link_idx'), d.get('time'))
             why = 'pushed {link_idx: %s, time: %s}' % (s1[:80], s2[:80])
             gate = [show(cnd, an.names) for cnd, o in pushes[0].pc]
-            ok = ok and any('est_type' in g_ for g_ in gate)
+            # the entry is pushed exactly for the Arrive nodes of a plain walk over the whole dispatch path: the last decision is
+            # `est_type == Arrive` of the SAME node with outcome true, the one before it the loop's own next()
+            pc = [(cnd, o) for cnd, o in pushes[0].pc if cnd[0] != 'pathset']
+            last = pc[-1] if pc else None
+            arrive = bool(last) and last[1] != '0' and last[0][0] == 'eq' and ('variant', 'EstType::Arrive') in last[0][1:] and \
+                any(x[0] == 'pre' and x[1][-2:] == (('f', 'link_event'), ('f', 'est_type')) and _same_elem(x, d.get('link_idx')) for x in last[0][1:])
+            loops = [cnd for cnd, o in pc if cnd[0] == 'discr' and cnd[1][0] == 'maybe']
+            whole = len(loops) == 1 and plain_iteration(loops[0]) and 'disp_path' in repr(loops[0])
+            ok = ok and arrive and whole and len(pc) <= 3
             why += ' gate %s' % [g_[:60] for g_ in gate][-2:]
     ctx.check(ok, 'C05-3.timedpath', 'TrainDisp::calc_timed_path|entries', 'one entry {link of the node, time_pass of the same node} per node whose event type is tested (Arrive)',
               'unexpected push: %s (%d push sites)' % (why, len(pushes)), ctx.where(b))
